@@ -3,10 +3,10 @@
 //! what the drivers share: the scripted socket (the harness's own), the projection of captured frames
 //! and the recording of events.  No verdict is taken here: specs/ProxyTrace.tla decides.
 
-#[path = "../../../harness/src/util.rs"]
+#[path = "../../../../harness/src/util.rs"]
 #[allow(dead_code)]
 mod util;
-#[path = "../../../harness/src/wire.rs"]
+#[path = "../../../../harness/src/wire.rs"]
 #[allow(dead_code)]
 mod wire;
 
